@@ -1,7 +1,57 @@
-import VermouthModel.Proto
-open Proto
+import VermouthModel.C11
+open Proto C11
 
-/-- placeholder driver for C11: replaced when the model is written -/
-def handle (_ : Unit) (_ : List Tok) : Unit × String := ((), "bad-op")
+def tokOf (s : String) : C11.Tok := s.toList.map Char.toNat
+def strOf (t : C11.Tok) : String := String.ofList (t.map Char.ofNat)
+def encTok (t : C11.Tok) : String := encStr (strOf t)
+
+def atomOf (t : Proto.Tok) : Option Atom := do
+  match ← t.list? with
+  | [k, r, n, fs] =>
+      pure { key := ← k.int?, resid := ← r.int?, name := tokOf (← n.str?), fields := (← strs? fs).map tokOf }
+  | _ => none
+
+def interOf (t : Proto.Tok) : Option Inter := do
+  match ← t.list? with
+  | [s, ks, ps] => pure { sect := tokOf (← s.str?), atoms := ← ints? ks, params := (← strs? ps).map tokOf }
+  | _ => none
+
+def v3Of (t : Proto.Tok) : Option V3 := do
+  match ← ints? t with
+  | [x, y, z] => pure (x, y, z)
+  | _ => none
+
+def encV3 (p : V3) : String := encList [encInt p.1, encInt p.2.1, encInt p.2.2]
+
+def encIdent (i : Ident) : String := encList [encInt i.1, encTok i.2]
+
+def encARec (r : ARec) : String := encList [encInt r.1.1, encTok r.1.2, encList (r.2.map encTok)]
+
+def encIRec (r : IRec) : String :=
+  encList [encTok r.1, encList (r.2.1.map fun o => encList (o.map encIdent)), encList (r.2.2.map encTok)]
+
+def encCanon (c : Canon) : String := encList [encList (c.atoms.map encARec), encList (c.inters.map encIRec)]
+
+def handle (_ : Unit) (toks : List Proto.Tok) : Unit × String :=
+  let r : Option String :=
+    match toks with
+    | [Proto.Tok.str "canon", syms, atoms, inters] => do
+        let ss := (← strs? syms).map tokOf
+        let as ← (← atoms.list?).mapM atomOf
+        let is ← (← inters.list?).mapM interOf
+        pure (encCanon (canonTop (fun s => ss.contains s) { atoms := as, inters := is }))
+    | [Proto.Tok.str "move", r1, r2, r3, t, pts] => do
+        let A : Mat3 := { r1 := ← v3Of r1, r2 := ← v3Of r2, r3 := ← v3Of r3 }
+        let tv ← v3Of t
+        let ps ← (← pts.list?).mapM v3Of
+        pure (encBool (decide A.IsOrtho) ++ " " ++ encInt A.det ++ " " ++ encList (ps.map fun p => encV3 (move A tv p)))
+    | [Proto.Tok.str "rot90", n] => do
+        let i ← n.nat?
+        let A ← rotations90[i % rotations90.length]?
+        pure (encList [encV3 A.r1, encV3 A.r2, encV3 A.r3])
+    | [Proto.Tok.str "sqd", p, q] => do
+        pure (encInt (sqdist (← v3Of p) (← v3Of q)))
+    | _ => none
+  ((), r.getD "bad-op")
 
 def main : IO Unit := runDriver handle ()
